@@ -264,7 +264,9 @@ func cloneInboundMessage(msg event.InboundMessage) event.InboundMessage {
 
 // Common preparation for calling Lua functions.
 func (h *Host) prepareInbucketFuncCall(funcName string) (logger zerolog.Logger, ls *lua.LState, ib *Inbucket, ok bool) {
-	logger = h.logContext.Str("event", funcName).Logger()
+	// Derive from a copy: Context.Str appends to the context's buffer in place, which must not be
+	// shared between concurrent calls.
+	logger = h.logContext.Logger().With().Str("event", funcName).Logger()
 
 	ls, err := h.pool.getState()
 	if err != nil {
